@@ -497,6 +497,7 @@ class Exec:
         fn = strip_casts(e['inner'][0])
         opname = fn.get('referencedDecl', {}).get('name')
         args = [self.ev(a, env) for a in e['inner'][1:]]
+        self.cur_env = env             # a lambda capturing by reference is executed in the environment of its call
         return self.model.operator(self, opname, args, e)
 
     def ev_CallExpr(self, e, env):
